@@ -25,6 +25,8 @@ THEOREMS = [
     "PyTrie.Props.C07.raw_delete_partial",
     "PyTrie.Props.C07.raw_set_missing_on_path",
     "PyTrie.Props.C07.raw_delete_missing_on_path",
+    "PyTrie.Props.C07.raw_traverse_partial",
+    "PyTrie.Props.C07.raw_get_partial",
 ]
 RULE = ("tries built by generated histories (prune on/off), then a subset of node bodies removed from the database (every "
         "subset for small tries, random subsets otherwise, single nodes, everything), then one operation — get, exists, set, "
